@@ -210,3 +210,78 @@ def seeded(argv):
     print("selftest-seeded: %d/%d caught, wall=%.0fs" % (caught, len(results), time.time() - t0))
     core.write_json(os.path.join(core.VERIF, "evidence", "selftest-seeded.json"), {"results": results, "caught": caught, "total": len(results)})
     return 0 if caught == len(results) else 1
+
+
+# Negative controls: changes under which every claimed property still holds. No check may raise an alarm on them.
+BENIGN = [
+    ("b01_error_type_changed", "geometry/utils.py",
+     'raise NameError("wing_type option not understood.', 'raise ValueError("wing_type option not understood.',
+     "an error is still raised; only its class changed"),
+    ("b02_warning_category_changed", "utils/check_surface_dict.py",
+     "                category=RuntimeWarning,", "                category=UserWarning,",
+     "a warning naming the key is still issued"),
+    ("b03_loads_zeroed_fully", "transfer/load_transfer.py",
+     '        outputs["loads"][-1, :] = 0.0\n', '        outputs["loads"][:] = 0.0\n',
+     "zeroes more than necessary"),
+    ("b04_tighter_shipped_tolerance_more_sweeps", "integration/aerostruct_groups.py",
+     'coupled.nonlinear_solver.options["maxiter"] = 100\n        coupled.nonlinear_solver.options["atol"] = 1e-7',
+     'coupled.nonlinear_solver.options["maxiter"] = 200\n        coupled.nonlinear_solver.options["atol"] = 5e-8',
+     "a different but still convergent solver setting"),
+    ("b05_mesh_copied_in_taper", "geometry/geometry_mesh_transformations.py",
+     '        mesh = self.options["mesh"]\n        symmetry = self.options["symmetry"]\n        taper_ratio = inputs["taper"][0]\n',
+     '        mesh = self.options["mesh"].copy()\n        symmetry = self.options["symmetry"]\n        taper_ratio = inputs["taper"][0]\n',
+     "defensive copy of the user's mesh"),
+    ("b06_cache_attribute_renamed", "aerodynamics/mtx_rhs.py", "normals_n_3", "normals_work",
+     "pure rename of an internal work array (all occurrences)"),
+    ("b07_moment_partials_assigned_not_accumulated_first_surface", "functionals/moment_coefficient.py",
+     '        partials["M", "cg"][:] = 0.0\n', '        partials["M", "cg"][:] = 0.0\n        partials["M", "cg"] *= 1.0\n',
+     "no-op arithmetic on Jacobian storage"),
+    ("b08_fem_refactor_every_time", "structures/fem.py",
+     '        residuals["disp_aug"] = K.dot(outputs["disp_aug"]) - inputs["forces"]',
+     '        self._lup = splu(K)\n        residuals["disp_aug"] = K.dot(outputs["disp_aug"]) - inputs["forces"]',
+     "refactors more often than necessary"),
+]
+
+
+def benign(argv):
+    """Apply each negative control to a scratch copy and run all three quick checks: all must exit 0."""
+    only = [a for a in argv if not a.startswith("-")]
+    t0 = time.time()
+    base = tempfile.mkdtemp(prefix="oasben-", dir="/dev/shm" if os.path.isdir("/dev/shm") else None)
+    results = []
+    try:
+        for name, rel, old, new, note in BENIGN:
+            if only and not any(o in name for o in only):
+                continue
+            root = os.path.join(base, name)
+            os.makedirs(root)
+            shutil.copytree(os.path.join(core.REPO, "openaerostruct"), os.path.join(root, "openaerostruct"),
+                            ignore=shutil.ignore_patterns("__pycache__", "docs", "examples"))
+            path = os.path.join(root, "openaerostruct", rel)
+            src = open(path).read()
+            if old not in src:
+                results.append({"control": name, "status": "anchor-not-found"})
+                continue
+            src = src.replace(old, new) if name.startswith("b06") else src.replace(old, new, 1)
+            open(path, "w").write(src)
+            compile(src, path, "exec")
+            row = {"control": name, "note": note, "checks": {}}
+            for prop in ("C03", "C12", "C20"):
+                env = dict(os.environ)
+                env.update(core.required_env())
+                env.pop("VERIF_REEXEC", None)
+                env.update({"VERIF_REPO": root, "VERIF_REPLAY_DIR": os.path.join(root, "rp"), "VERIF_EVIDENCE_DIR": os.path.join(root, "ev")})
+                q = subprocess.run([sys.executable, os.path.join(core.VERIF, "sim", "cli.py"), prop, "quick"], env=env,
+                                   capture_output=True, text=True, timeout=2400, cwd=core.VERIF)
+                cls = [ln.strip().split(" err=")[0] for ln in q.stdout.splitlines() if ln.strip().startswith("class=")]
+                row["checks"][prop] = {"exit": q.returncode, "classes": cls[:2]}
+            row["status"] = "quiet" if all(c["exit"] == 0 for c in row["checks"].values()) else "FALSE-ALARM"
+            results.append(row)
+            print("%-60s %s %s" % (name, row["status"], {k: v["exit"] for k, v in row["checks"].items()}), flush=True)
+            shutil.rmtree(root, ignore_errors=True)
+    finally:
+        shutil.rmtree(base, ignore_errors=True)
+    quiet = sum(1 for r in results if r.get("status") == "quiet")
+    print("selftest-benign: %d/%d quiet, wall=%.0fs" % (quiet, len(results), time.time() - t0))
+    core.write_json(os.path.join(core.VERIF, "evidence", "selftest-benign.json"), {"results": results, "quiet": quiet, "total": len(results)})
+    return 0 if quiet == len(results) else 1
